@@ -3,7 +3,7 @@
 (* Defs_Network evaluated on the recorded adjacency matrix (wherever the       *)
 (* measure is defined), and with unit weights every n.s.i. measure satisfies   *)
 (* its documented relation to the unweighted measure.                          *)
-EXTENDS Defs_Network, Json, IOUtils
+EXTENDS Defs_Network, Defs_RandomWalk, Json, IOUtils
 
 Trace == ndJsonDeserialize(IOEnv.TRACE_FILE)
 VARIABLE i
@@ -111,6 +111,11 @@ Checks(e) ==
   \* betweenness B_i; on the COMPLETE graph every third node carries 1/n, so it is 2 + (n-2)/n
   <<"newman_betweenness(tree)", (und /\ conn /\ n >= 2 /\ NLinksU(e.A) = n - 1 /\ Divides(G.Sg)) =>
         Vec(e, "newman_betweenness", LAMBDA k : 2 * S + FxDiv(2 * BetwLCM(G, k, 1..n, 1..n), 2 * LCM * (n - 1), S))>>,
+  \* ... and on EVERY connected undirected graph of up to 6 nodes by the electrical definition (Defs_RandomWalk:
+  \* spanning-tree determinants, no matrix inverse, no grounded node)
+  <<"newman_betweenness", (und /\ conn /\ n >= 2 /\ n <= 6) =>
+        LET E == ERNum(e.A)  tau == TreeCount(e.A) IN
+        Vec(e, "newman_betweenness", LAMBDA k : NewmanRWB6(e.A, E, tau, k))>>,
   <<"newman_betweenness(complete)", (und /\ n >= 3 /\ NLinksU(e.A) = (n * (n - 1)) \div 2) =>
         Vec(e, "newman_betweenness", LAMBDA k : 2 * S + Q(n - 2, n))>>,
   <<"interregional_betweenness", (und /\ Divides(G.Sg)) =>
